@@ -39,16 +39,16 @@ type c15Beh struct {
 }
 
 type c15PeerIn struct {
-	ID       string   `json:"id"`
-	State    string   `json:"state"` // up warning down broken pending syncing
-	HasData  bool     `json:"hasdata"`
-	Stale    bool     `json:"stale"`
-	KillPool bool     `json:"killpool"` // backend closes lmd's pooled connections before the session (not modelled: must not matter)
+	ID       string `json:"id"`
+	State    string `json:"state"` // up warning down broken pending syncing
+	HasData  bool   `json:"hasdata"`
+	Stale    bool   `json:"stale"`
+	KillPool bool   `json:"killpool"` // backend closes lmd's pooled connections before the session (not modelled: must not matter)
 	// "" = Livestatus unix socket, "http" = Thruk API (scripted http server on a loopback address)
-	Transport string `json:"transport,omitempty"`
-	Thruk     string `json:"thruk,omitempty"` // version the http backend reports (< 2.23: json envelope, else raw answers)
-	Script   []c15Beh `json:"script"`
-	Resolve  []string `json:"resolve"`
+	Transport string   `json:"transport,omitempty"`
+	Thruk     string   `json:"thruk,omitempty"` // version the http backend reports (< 2.23: json envelope, else raw answers)
+	Script    []c15Beh `json:"script"`
+	Resolve   []string `json:"resolve"`
 }
 
 type c15Item struct {
@@ -848,10 +848,8 @@ func c15GenBeh(r *vRand) c15Beh {
 func c15GenBehHTTP(r *vRand) c15Beh {
 	msgs := []string{"bad command", "Unknown command FOO", "x: y", "no such host 'ä'", "a"}
 	remote := []string{"ERROR: failed to connect to peer", "no backend available", "Can't locate object method \"x\"", "internal <error> & more"}
-	if verifEnv("VERIF_C15_BROKENPIPE", "") != "" {
-		// D-C15-2 (notes/C15.md): this answer makes HTTPQueryWithRetries POST the batch again
-		remote = append(remote, "ERROR: broken pipe.", "ERROR: broken pipe. at /usr/share/thruk/lib/Thruk/Backend/Peer.pm line 1")
-	}
+	// D-C15-2 (notes/C15.md, repaired by /repo 4f784aa): this answer made HTTPQueryWithRetries POST the batch again
+	remote = append(remote, "ERROR: broken pipe.", "ERROR: broken pipe. at /usr/share/thruk/lib/Thruk/Backend/Peer.pm line 1")
 	switch n := r.intn(100); {
 	case n < 30:
 		return c15Beh{Kind: "accept"}
